@@ -804,6 +804,8 @@ val mc_state_file : fs -> byte list
 
 val mc_fs_of : byte list -> fs
 
+val mc_fs_make : byte list -> byte list option -> fs
+
 val mc_to_map : entries -> smap
 
 val mc_smap_to_list : smap -> (str * lock list) list
